@@ -14,7 +14,7 @@ ID = "C15"
 META = {
     "technique": "runtime monitoring: attributes of EVs returned by the real converters (ACN-Data documents through a fake transport, stochastic samples through the public sample() extension point) compared with an exact-rational period-index oracle; fitted batteries charged through the real model for the whole stay",
     "design_ref": "DESIGN.md section 6 C15",
-    "level_text": "exploration: thousands of generated documents/samples x configuration grid, each EV judged on arrival/departure/energy/battery; capacity fit swept over (energy, stay, voltage, period) including the small-request branch the suite never samples, by charging the real Linear2StageBattery for the stay; half of the document batches through generate_events; integer-typed sample matrices; half of the calls leave options at their documented defaults unmentioned; samples before the simulation start; stays handed to the capacity fit as numpy integers of every width",
+    "level_text": "exploration: thousands of generated documents/samples x configuration grid, each EV judged on arrival/departure/energy/battery; capacity fit swept over (energy, stay, voltage, period) including the small-request branch the suite never samples, by charging the real Linear2StageBattery for the stay; half of the document batches through generate_events; integer-typed sample matrices; half of the calls leave options at their documented defaults unmentioned; samples before the simulation start; stays handed to the capacity fit as numpy integers of every width; fits at week-long periods and MV supplies",
     "level_note": "instants are whole seconds after 1970 and periods are exactly representable ('nice') so floor() is decidable; stochastic samples within 1e-9 of a period boundary are not judged; max_len follows the behaviour the suite pins (periods for documents, hours for samples)",
 }
 LEVEL = "exploration"
